@@ -35,8 +35,13 @@ class UF:
             self.p[ra] = rb
 
 
-def analyse(fn, extra_sources=()):
-    """returns list of findings: dict(kind, op, pos, bb, origin, operand_name, result_name)"""
+EXTREMES = {-2147483648, 2147483647, 4294967295}
+
+
+def analyse(fn, extra_sources=(), raw_fields=(), adts=None):
+    """returns list of findings: dict(kind, op, pos, bb, origin, operand_name, result_name).
+    raw_fields: (ADT path, field name) pairs known to hold a raw value (stored unguarded by some parser): loads of them are sources.
+    With `adts`, the raw fields this function stores are left in analyse.raw_field_writes."""
     # 1. value classes
     uf = UF()
     tainted_roots = {}   # local -> origin description (callee short name + ordinal)
@@ -46,6 +51,20 @@ def analyse(fn, extra_sources=()):
         if c and (c["fn"] in SOURCE_FNS or c["fn"] in extra_sources or c.get("res") in extra_sources) and len(t[3]) == 1:
             n_src += 1
             tainted_roots[t[3][0]] = "%s#%d" % (c["fn"].split("::")[-1], n_src)
+    if raw_fields:
+        for b, blk in enumerate(fn.blocks):
+            if fn.is_cleanup(b):
+                continue
+            for st in blk[0]:
+                if st[0] == "=" and len(st[1]) == 1 and st[2][0] == "use":
+                    p = op_place(st[2][1])
+                    if p is None or len(p) < 2:
+                        continue
+                    fl = [e for e in p[1:] if isinstance(e, list) and e[0] == "."]
+                    if fl and p[-1] is fl[-1] and (fl[-1][3], fl[-1][2]) in raw_fields and fn.local_ty(st[1][0]) in W32:
+                        n_src += 1
+                        tainted_roots[st[1][0]] = "field %s.%s" % (str(fl[-1][3]).split("::")[-1], fl[-1][2])
+    analyse.raw_field_writes = set()
     if not tainted_roots:
         return [], 0
     # class-preserving flows
@@ -75,6 +94,39 @@ def analyse(fn, extra_sources=()):
                 p = op_place(t[2][0])
                 if p is not None:
                     uf.union(t[3][0], p[0])
+    # loads of one field through a shared reference are the same value (a match guard tests one load, the arm uses another)
+    by_place = {}
+    defs0 = Defs(fn)
+
+    def canon(p):
+        for _ in range(4):
+            if len(p) >= 2 and p[1] == "*":
+                d = defs0.single(p[0])
+                if d and d[2] == "assign" and d[3][2][0] == "ref" and d[3][2][1] == "shared":
+                    p = list(d[3][2][2]) + list(p[2:])
+                    continue
+            break
+        return p
+
+    for b, blk in enumerate(fn.blocks):
+        if fn.is_cleanup(b):
+            continue
+        for st in blk[0]:
+            if st[0] == "=" and len(st[1]) == 1 and st[2][0] == "use":
+                p = op_place(st[2][1])
+                if p is None:
+                    continue
+                p = canon(p)
+                if len(p) < 3 or p[1] != "*":
+                    continue
+                bty = fn.local_ty(p[0])
+                if not bty.startswith("&") or bty.startswith("&mut"):
+                    continue
+                k = repr(p)
+                if k in by_place:
+                    uf.union(st[1][0], by_place[k])
+                else:
+                    by_place[k] = st[1][0]
     # 2. taint per class; derived taint through arithmetic
     origin = {}  # class root -> origin
     for l, o in tainted_roots.items():
@@ -100,6 +152,12 @@ def analyse(fn, extra_sources=()):
                     for o in (st[2][2], st[2][3]):
                         l = op_local(o)
                         if l is not None:
+                            add_guard(l, b)
+                elif st[0] == "=" and st[2][0] == "bin" and st[2][1] in ("Eq", "Ne"):
+                    # a test against the end of the type's range (value == i32::MIN, ..) bounds the value like an ordering test
+                    for o, other in ((st[2][2], st[2][3]), (st[2][3], st[2][2])):
+                        l = op_local(o)
+                        if l is not None and op_const_int(other) in EXTREMES:
                             add_guard(l, b)
             t = blk[1]
             if t[0] == "call":
@@ -200,6 +258,23 @@ def analyse(fn, extra_sources=()):
                         if k not in seen_sinks:
                             seen_sinks.add(k)
                             findings.append(dict(kind="abs", op="abs", pos=t[-2], bb=b, locals=[l], origin=origin[uf.find(l)], dst=t[3][0]))
+    # which struct / enum-variant fields does the function fill with a raw value?
+    if adts is not None:
+        for b, blk in enumerate(fn.blocks):
+            if fn.is_cleanup(b):
+                continue
+            for st in blk[0]:
+                if st[0] == "=" and st[2][0] == "agg" and st[2][1][0] == "adt" and st[2][1][1] in adts:
+                    var = next((v for v in adts[st[2][1][1]]["variants"] if v["name"] == st[2][1][2]), None)
+                    if var is None:
+                        continue
+                    for i, o in enumerate(st[2][2]):
+                        l = op_local(o)
+                        if i >= len(var["fields"]):
+                            break
+                        key = (st[2][1][1], var["fields"][i][0])
+                        if l is not None and is_tainted(l) and width_ok(l) and not guarded(l, b):
+                            analyse.raw_field_writes.add(key + (fn.path, st[3]))
     # does the function hand the raw value on to its caller?  (`Ok(raw)` / `raw` in the return place, unguarded)
     returns_raw = False
     for b, blk in enumerate(fn.blocks):
@@ -284,8 +359,44 @@ def run(ctx, crates):
         if not grew:
             break
     ctx.counts[rid + ".derived-sources"] = len(extra)
+    # fields that a parser fills with a raw value: loads of them elsewhere are raw as well (one round: parser -> consumers)
+    adts = {}
+    for cn in crates:
+        if cn in ctx.prog.crates:
+            adts.update(ctx.prog.crate(cn).adts)
+    # A field counts only when every construction of its type fills it with a raw value (a general-purpose type such as Region, which
+    # is also built from computed values, is not a raw carrier), and it is never stored into directly.
+    all_sites = {}
+    stored = set()
     for f in fns:
-        findings, n_src = analyse(f, extra)
+        for blk in f.blocks:
+            if blk[2]:
+                continue
+            for st in blk[0]:
+                if st[0] != "=":
+                    continue
+                if st[2][0] == "agg" and st[2][1][0] == "adt" and st[2][1][1] in adts:
+                    var = next((v for v in adts[st[2][1][1]]["variants"] if v["name"] == st[2][1][2]), None)
+                    if var:
+                        for i in range(min(len(st[2][2]), len(var["fields"]))):
+                            all_sites.setdefault((st[2][1][1], var["fields"][i][0]), set()).add((f.path, st[3]))
+                fl = [e for e in st[1][1:] if isinstance(e, list) and e[0] == "."]
+                if fl and st[1][-1] is fl[-1]:
+                    stored.add((fl[-1][3], fl[-1][2]))
+    raw_fields = set()
+    for _ in range(4):
+        raw_sites = {}
+        for f in fns:
+            analyse(f, extra, raw_fields, adts)
+            for a, n, fp, pos in getattr(analyse, "raw_field_writes", set()):
+                raw_sites.setdefault((a, n), set()).add((fp, pos))
+        new = {k for k, v in raw_sites.items() if k not in stored and v == all_sites.get(k)}
+        if new == raw_fields:
+            break
+        raw_fields = new
+    ctx.counts[rid + ".raw-fields"] = len(raw_fields)
+    for f in fns:
+        findings, n_src = analyse(f, extra, raw_fields)
         if not n_src:
             continue
         total_src += n_src
